@@ -61,7 +61,7 @@ def inject(draw, node, targets, depth=0, hits=None, hashable=False):
             return node
         hits.append(depth)
         return draw(st.sampled_from(ts))
-    if k in ('type', 'lit', 'tv', 'nt', 'proto', 'shallow', 'none', 'any', 'cls'):
+    if k in ('type', 'lit', 'tv', 'nt', 'alias', 'proto', 'shallow', 'none', 'any', 'cls'):
         return node
 
     def go(ch, h):
